@@ -186,6 +186,9 @@ def find_method(cls, name):
         if name in k.__dict__:
             if k is object:
                 return None
+            raw = k.__dict__[name]
+            if not (inspect.isfunction(raw) or isinstance(raw, (classmethod, staticmethod))):
+                return None         # a data attribute of the class, not a method
             path = inspect.getsourcefile(sys.modules[k.__module__])
             node, seg = FuncSrc.find(path, k.__qualname__ + '.' + name)
             return k, node, seg
@@ -354,7 +357,23 @@ class Interp(object):
         elif isinstance(s, (ast.FunctionDef,)):
             env[s.name] = Closure(s, env, globs)
         elif isinstance(s, ast.Delete):
-            raise Unsupported('del')
+            for t in s.targets:
+                if isinstance(t, ast.Name):
+                    if t.id not in env:
+                        raise PyRaise('NameError', t.id, s)
+                    del env[t.id]
+                elif isinstance(t, ast.Subscript):
+                    o = self.eval(t.value, env, globs)
+                    k = self.eval(t.slice, env, globs)
+                    if isinstance(o, (dict, list)) and not is_sym(k) and not isinstance(k, (SObj, slice)):
+                        try:
+                            del o[k]
+                        except (KeyError, IndexError) as ex:
+                            raise PyRaise(type(ex).__name__, str(ex), s)
+                    else:
+                        raise Unsupported('del of a symbolic subscript')
+                else:
+                    raise Unsupported('del target %s' % type(t).__name__)
         elif isinstance(s, ast.Global):
             raise Unsupported('global')
         else:
@@ -864,12 +883,23 @@ class Interp(object):
                     return any(kk in (float, object) for kk in ks)
                 raise Unsupported('isinstance on %s' % o.sort())
             return isinstance(o, k)
-        if getattr(f, '__module__', None) == 'builtins' or f in (len, abs, hash, min, max, sorted, hasattr):
+        if getattr(f, '__module__', None) == 'builtins' or f in (len, abs, hash, min, max, sorted, hasattr, getattr):
             return self.call_builtin(f, args, kwargs, node)
         if inspect.isfunction(f):
             mod = sys.modules.get(f.__module__)
             qn = '%s:%s' % (f.__module__, f.__qualname__)
             return self.call_contract(qn, args, kwargs, node, func=f)
+        if inspect.isbuiltin(f) and isinstance(getattr(f, '__self__', None), (dict, list, tuple, str, bytes, set, frozenset)):
+            # method of a concrete container (its elements may be symbolic): keys/values/items/get/append/... run natively as long as no
+            # symbolic value has to be compared or hashed
+            if f.__name__ in ('index', 'count', 'remove', 'sort', '__contains__') or any(is_sym(a) or isinstance(a, SObj) for a in args if f.__name__ in ('get', 'pop', 'setdefault', '__getitem__')):
+                raise Unsupported('container method %s with symbolic comparison' % f.__name__)
+            try:
+                return f(*args, **kwargs)
+            except z3.Z3Exception as ex:
+                raise Unsupported('container method %s: %s' % (f.__name__, ex))
+            except Exception as ex:
+                raise PyRaise(type(ex).__name__, str(ex), node)
         if inspect.ismethod(f):
             raise Unsupported('bound method of concrete object %r' % (f,))
         raise Unsupported('call of %r' % (f,))
@@ -925,6 +955,27 @@ class Interp(object):
             if z3.is_int(args[0]): return int
         if f is range:
             raise Unsupported('range over symbolic bound')
+        if f is hasattr and len(args) == 2 and isinstance(args[1], str):
+            o, name = args
+            if isinstance(o, SObj):
+                # instance attributes of a symbolic record are exactly its fields; everything else comes from the class
+                return name in o.fields or hasattr(o.cls, name)
+            if z3.is_int(o): return hasattr(int, name)
+            if z3.is_bool(o): return hasattr(bool, name)
+            if z3.is_real(o): return hasattr(float, name)
+        if f is getattr and len(args) in (2, 3) and isinstance(args[1], str):
+            o, name = args[0], args[1]
+            if isinstance(o, SObj):
+                if name in o.fields or hasattr(o.cls, name):
+                    return self.getattr(o, name, node)
+                if len(args) == 3: return args[2]
+                raise PyRaise('AttributeError', name, node)
+            if is_sym(o):
+                k = int if z3.is_int(o) else (bool if z3.is_bool(o) else float)
+                if not hasattr(k, name):
+                    if len(args) == 3: return args[2]
+                    raise PyRaise('AttributeError', name, node)
+                raise Unsupported('attribute %s of symbolic scalar' % name)
         raise Unsupported('builtin %s on symbolic args' % getattr(f, '__name__', f))
 
     def qname_of(self, owner, name):
